@@ -56,7 +56,7 @@ Definition d_exc (v : val) : exc :=
 Definition d_writes (v : val) : writes :=
   {| w_status := dopt dN (nth_val 0 v); w_text := dopt dstr (nth_val 1 v);
      w_data := dopt dstr (nth_val 2 v); w_media := dopt dN (nth_val 3 v);
-     w_headers := d_pairs (nth_val 4 v) |}.
+     w_headers := d_pairs (nth_val 4 v); w_render := dbool (nth_val 5 v) |}.
 
 Definition d_hend (v : val) : hend :=
   let t := dZ (nth_val 0 v) in
@@ -111,7 +111,7 @@ Definition v_c03_action (a : Falcon.C03.Model.action) : val :=
      | Falcon.C03.Model.RaiseUnhandled => 6 end).
 
 Definition resp0 : resp :=
-  {| r_status := 200%N; r_headers := []; r_text := None; r_data := None; r_media := None |}.
+  {| r_status := 200%N; r_headers := []; r_text := None; r_data := None; r_media := None; r_rendered := None |}.
 
 (* ops: 0 one request:  [0; fixed; hist; scripts; ncfg; media_fails; writes; raised?]
         1 registry:     [1; hist; mro]  -> handler by the dict model / by the history spec,
